@@ -122,6 +122,14 @@ func oracle(c core.Case, out []string) []core.Finding {
 		}
 		j = append(j, r)
 	}
+	// readers that stay open
+	type orec struct {
+		start  int      // journal position the reader started at
+		got    []string // what it returned so far
+		strict bool     // gap-free prefix expected (no pruning under it, unambiguous start)
+	}
+	open := map[string]*orec{}
+	anyCrash := false
 	var prevFiles map[int]int64
 	for i, op := range c.Ops {
 		if i >= len(out) {
@@ -137,6 +145,92 @@ func oracle(c core.Case, out []string) []core.Finding {
 		}
 		m := kv(op)
 		switch f[0] {
+		case "ropen":
+			if o == "ok" {
+				idx, _ := natOf(m, "idx")
+				st := len(j)
+				for k := range j {
+					if !j[k].discarded && (j[k].file == -1 || int64(j[k].file) >= idx) {
+						st = k
+						break
+					}
+				}
+				open[m["name"]] = &orec{start: st, strict: !anyCrash && !tainted && !unjudged}
+			}
+		case "rsearch":
+			if o == "found" {
+				h, _ := intOf(m, "h")
+				cnt, pos := 0, 0
+				for k := range j {
+					if j[k].marker && j[k].height == h {
+						cnt++
+						pos = k + 1
+					}
+				}
+				if cnt == 0 {
+					add("wal.SearchForEndHeight.found-marker-never-written",
+						fmt.Sprintf("search for #ENDHEIGHT %d succeeded but no such marker was ever written", h))
+				}
+				open[m["name"]] = &orec{start: pos, strict: cnt == 1 && !anyCrash && !tainted && !unjudged}
+			} else {
+				delete(open, m["name"])
+			}
+		case "rclose":
+			delete(open, m["name"])
+		case "rnext":
+			rd, ok := open[m["name"]]
+			recs, end, ok2 := splitRecs(o, "recs")
+			if !ok || !ok2 {
+				continue
+			}
+			rd.got = append(rd.got, recs...)
+			var exp []string
+			lastAcked := -1
+			for k := rd.start; k < len(j); k++ {
+				if j[k].discarded && !rd.strict {
+					continue
+				}
+				exp = append(exp, j[k].dig)
+				if j[k].acked && !j[k].discarded {
+					lastAcked = len(exp) - 1
+				}
+			}
+			if rd.strict {
+				bad := len(rd.got) > len(exp)
+				for k := 0; !bad && k < len(rd.got); k++ {
+					bad = rd.got[k] != exp[k]
+				}
+				if bad {
+					add("autofile.GroupReader.open-reader-skips-or-reorders-records",
+						fmt.Sprintf("a reader kept open across writes/rotations returned %v, which is not a gap-free run of the written records from its starting position (%v)", rd.got, exp))
+				} else if end == "eof" && len(rd.got) <= lastAcked {
+					add("autofile.GroupReader.open-reader-stops-before-synced-records",
+						fmt.Sprintf("a reader kept open reported EOF after %d records although %d fsynced records lie after its starting position", len(rd.got), lastAcked+1))
+				}
+			} else {
+				var all []string
+				for _, r := range j {
+					all = append(all, r.dig)
+				}
+				if good, x := isSubseq(rd.got, all); !good {
+					add("wal.reader.returns-record-never-written-or-out-of-order",
+						"a reader kept open returned "+x+" which is not a written record at that position of the write order")
+				}
+			}
+		case "race":
+			if strings.HasPrefix(o, "race ") && !strings.HasPrefix(o, "race ok") {
+				add("autofile.GroupReader.concurrent-reader-skips-or-loses-records",
+					"a reader running concurrently with synced writes and rotations did not return a gap-free prefix of the log: "+o)
+			}
+			if strings.HasPrefix(o, "race ok") {
+				if rs := m["recs"]; rs != "-" && rs != "" {
+					for _, h := range strings.Split(rs, ",") {
+						d, _ := unhx(h)
+						appendRec(d)
+					}
+					ackLive()
+				}
+			}
 		case "open":
 			if strings.Contains(o, "wrote=true") {
 				d, _ := unhx(m["e0"])
@@ -160,6 +254,7 @@ func oracle(c core.Case, out []string) []core.Finding {
 				ackLive()
 			}
 		case "stop":
+			open = map[string]*orec{}
 			ackLive()
 		case "rotate":
 			if strings.HasPrefix(o, "rotated=true") {
@@ -192,6 +287,9 @@ func oracle(c core.Case, out []string) []core.Finding {
 				}
 			}
 			if len(removed) > 0 {
+				for _, rd := range open {
+					rd.strict = false
+				}
 				sort.Ints(removed)
 				hi := removed[len(removed)-1]
 				for k := range files {
@@ -215,6 +313,8 @@ func oracle(c core.Case, out []string) []core.Finding {
 				}
 			}
 		case "crash":
+			anyCrash = true
+			open = map[string]*orec{}
 			for k := range j {
 				if !j[k].acked {
 					frozen[k] = true
